@@ -10,6 +10,7 @@ the CONNECT stream's id.
 import WtVerif.Props.C18
 import WtVerif.Props.C17
 import WtVerif.Lemmas.Wire
+import WtVerif.Lemmas.Connect
 
 namespace Props.C02
 open Session
@@ -73,6 +74,41 @@ theorem response_survives_wire (h : Headers) (hnd : (h.map (·.1)).Nodup) (ht : 
   rw [hw]
   simp only [this]
 
+/-- extra fields inserted one after the other keep the request admissible -/
+theorem insertAll_keeps_request : ∀ (extras : List Qpack.Field) (h h' : Headers), insertAll h extras = some h' →
+    (∃ r, requestTryFrom h = .ok r) → ∃ r, requestTryFrom h' = .ok r := by
+  intro extras
+  induction extras with
+  | nil => intro h h' hi hadm; simp [insertAll] at hi; subst hi; exact hadm
+  | cons f r ih =>
+    intro h h' hi hadm
+    obtain ⟨k, v⟩ := f
+    simp only [insertAll] at hi
+    cases hins : requestInsert h k v with
+    | none => rw [hins] at hi; cases hi
+    | some h1 =>
+      rw [hins] at hi
+      exact ih h1 h' hi (insert_extra_keeps_request h k v h1 hadm hins).1
+
+/-- **C02, request half, end to end**: for every authority, path and query the URL parser
+reports and every list of extra fields the application adds (Rust strings; none of them
+reserved, so `connect` does not refuse), the request `connect` builds, once encoded into the
+HEADERS payload (sorted map, QPACK, Huffman) and decoded and admitted by the server's worker,
+reaches the server application as a session request holding the same value under every name. -/
+theorem connect_request_reaches_server (authority path : Bytes) (query : Option Bytes)
+    (extras : List Qpack.Field) (h : Headers)
+    (hbuild : insertAll (requestNew authority path query) extras = some h)
+    (ha : Utf8.valid authority = true ∧ authority.length < 2^64)
+    (hp : Utf8.valid (match query with | some q => path ++ [63] ++ q | none => path) = true ∧
+          (match query with | some q => path ++ [63] ++ q | none => path).length < 2^64)
+    (hx : ∀ f ∈ extras, TextPair f.1 f.2) :
+    ∃ h', admitRequest (Headers.encode h) = .session h' ∧ ∀ k, Headers.get h' k = Headers.get h k := by
+  obtain ⟨hnd, ht⟩ := insertAll_inv extras _ h hbuild (requestNew_nodup authority path query)
+    (requestNew_texts authority path query ha hp) hx
+  have hadm := insertAll_keeps_request extras _ h hbuild ⟨_, request_seen_exactly authority path query⟩
+  obtain ⟨h', hs, _, hg⟩ := request_survives_wire h hnd ht hadm
+  exact ⟨h', hs, hg⟩
+
 /-- decimal text of a status code parses back to the code (all 500 codes) -/
 theorem status_text_roundtrip :
     (List.range 500).all (fun i =>
@@ -105,6 +141,45 @@ theorem decision_mirror (st : Nat) (extras : List Qpack.Field) (hst : 100 ≤ st
   have e : 100 + (st - 100) = st := by omega
   rw [e] at h
   simp [h]
+
+/-- the decimal text of every status code is ASCII digits (valid UTF-8, three bytes) -/
+theorem status_text_is_utf8 :
+    (List.range 500).all (fun i => Utf8.valid (decimal (100 + i)) && (decimal (100 + i)).length == 3) = true := by
+  decide +kernel
+
+/-- **C02, response half, end to end**: for every status code the server may answer with and
+every list of extra response fields (Rust strings, none of them `:status`), the client's verdict
+on the HEADERS payload the server generated is `established` iff the status is 2xx and `rejected`
+otherwise: the extra fields never change the outcome. -/
+theorem server_decision_reaches_client (st : Nat) (extras : List Qpack.Field) (hst : 100 ≤ st ∧ st ≤ 599)
+    (hex : ∀ f ∈ extras, f.1 ≠ Names.status) (hx : ∀ f ∈ extras, TextPair f.1 f.2) :
+    clientVerdict (Headers.encode (extras.foldl (fun acc f => Headers.insert acc f.1 f.2) (responseWithStatus st)))
+      = if Ids.isSuccessful st then .established else .rejected := by
+  have hinv : ∀ (l : List Qpack.Field) (h0 : Headers), (h0.map (·.1)).Nodup → Headers.Texts h0 →
+      (∀ f ∈ l, TextPair f.1 f.2) →
+      ((l.foldl (fun acc f => Headers.insert acc f.1 f.2) h0).map (·.1)).Nodup ∧
+      Headers.Texts (l.foldl (fun acc f => Headers.insert acc f.1 f.2) h0) := by
+    intro l
+    induction l with
+    | nil => intro h0 hnd ht _; exact ⟨hnd, ht⟩
+    | cons f t ih =>
+      intro h0 hnd ht hl
+      simp only [List.foldl]
+      exact ih _ (insert_keys_nodup h0 f.1 f.2 hnd) (insert_texts h0 f.1 f.2 ht (hl f (by simp)))
+        (fun g hg => hl g (by simp [hg]))
+  have hdig := status_text_is_utf8
+  simp only [List.all_eq_true, List.mem_range, Bool.and_eq_true, beq_iff_eq] at hdig
+  have hd := hdig (st - 100) (by omega)
+  have e : 100 + (st - 100) = st := by omega
+  rw [e] at hd
+  have hbase : Headers.Texts (responseWithStatus st) := by
+    intro f hf
+    simp only [responseWithStatus, List.mem_cons, List.not_mem_nil, or_false] at hf
+    subst hf
+    exact ⟨(by decide : Utf8.valid Names.status = true), hd.1, (by decide : Names.status.length < 2^64),
+      by show (decimal st).length < 2^64; rw [hd.2]; decide⟩
+  obtain ⟨hnd, ht⟩ := hinv extras (responseWithStatus st) (by simp [responseWithStatus]) hbase hx
+  exact response_survives_wire _ hnd ht st (decision_mirror st extras hst hex)
 
 /-- … so the verdict is `established` iff the server answered 2xx -/
 theorem verdict_iff_2xx (st : Nat) : Ids.isSuccessful st = true ↔ 200 ≤ st ∧ st ≤ 299 := by
